@@ -4,7 +4,9 @@
 // reference predicate (oracle.Rules, the property statement + docs/sso_config.md) and with each other.
 // Streams: c11 (rule-kind subsets x list variants x e-mail classes x provider answers), c11-moved (facts change
 // between the moments), c11-long (long allowed_groups lists), c11-rare (rare-but-legal configurations: blank,
-// padded, duplicated, templated entries; present-but-empty kinds), c11-empty (the empty rule set).
+// padded, duplicated, templated entries; present-but-empty kinds), c11-shape (list length / order / case that
+// changes the byte order / prefix-suffix relations; listed users at every position, users just outside),
+// c11-empty (the empty rule set).
 package c11
 
 import (
@@ -69,7 +71,7 @@ func TestProp(t *testing.T) {
 	}
 	env := vh.GetEnv()
 	rep := vh.NewReport("C11", "exploration")
-	rep.Rule("per stack 16 generated upstreams cover every non-empty subset of {allowed_email_addresses, allowed_email_domains, allowed_groups} (each >= 2x) with list variants (several entries, case variants, lone *, * mixed, empty-string entry, non-ASCII entry, leading-@ domain, white space); cases stride over e-mail class (24: listed/case variants/several @/empty local/empty/look-alikes/no @/trailing dot/white space/unicode/long/...) x provider group answer (7: member/other/empty/error/case variant/near name/last listed) per upstream; each case is evaluated at the real /oauth2/callback, on the next request, after validity expiry (/validate + /profile) and after token expiry (/refresh + /profile) with unchanged facts; a second stream (c11-moved: upstreams listing 2-3 groups, masks group / address+group / domain+group / all) CHANGES the provider's group answer between the moments (login: first listed / last listed / both / unlisted / none; revalidation and refresh independently: first / last / both / unlisted / none / provider error; refresh from the login cookie or from the cookie revalidation set) and judges every moment against the reference with the facts of that moment; a third stream (c11-long) configures allowed_groups lists of 21/25/40/100 names (some with spaces, non-ASCII letters, 120 characters) and users whose only listed group sits at position 1/20/21/22/last/random of the list as the proxy asks it, at all four moments. /profile is answered like the real authenticator does (only groups the request asked about; sut.ProfileFaithful) except for one case in eight, which gets a fixed answer that also names an unasked, unlisted group. distinct = (kinds, list variants, e-mail class, group answer, login verdict, cookie source), counted when the callback answered. The empty rule set is probed through the configuration loader (separate stream). A fourth case stream (c11-rare) writes raw upstream_configs.yml documents whose rule lists are rare but legal - blank entries (\"\", \" \", several), alone or next to a real entry; entries from a {{template}} variable that resolves to the empty string (quoted, or unquoted in a block list) or to a padded name; padded entries (leading / trailing / both); duplicated entries (same / other case); rule kinds present-but-empty ([] / ~) next to a configured one - one rare kind per upstream, every (rule-kind subset, rare kind, variant) combination in turn, e-mail class (10, incl. an e-mail with an empty domain part) x provider answer (7: member as listed / as listed but trimmed / other / none / case variant / a group literally named blank / error), same four moments and judge; the reference reads configured strings literally: a blank entry names nothing, a list of blank entries is a configured rule kind that admits nobody; matches that exist only after trimming or case folding are counted don't-cares")
+	rep.Rule("per stack 16 generated upstreams cover every non-empty subset of {allowed_email_addresses, allowed_email_domains, allowed_groups} (each >= 2x) with list variants (several entries, case variants, lone *, * mixed, empty-string entry, non-ASCII entry, leading-@ domain, white space); cases stride over e-mail class (24: listed/case variants/several @/empty local/empty/look-alikes/no @/trailing dot/white space/unicode/long/...) x provider group answer (7: member/other/empty/error/case variant/near name/last listed) per upstream; each case is evaluated at the real /oauth2/callback, on the next request, after validity expiry (/validate + /profile) and after token expiry (/refresh + /profile) with unchanged facts; a second stream (c11-moved: upstreams listing 2-3 groups, masks group / address+group / domain+group / all) CHANGES the provider's group answer between the moments (login: first listed / last listed / both / unlisted / none; revalidation and refresh independently: first / last / both / unlisted / none / provider error; refresh from the login cookie or from the cookie revalidation set) and judges every moment against the reference with the facts of that moment; a third stream (c11-long) configures allowed_groups lists of 21/25/40/100 names (some with spaces, non-ASCII letters, 120 characters) and users whose only listed group sits at position 1/20/21/22/last/random of the list as the proxy asks it, at all four moments. /profile is answered like the real authenticator does (only groups the request asked about; sut.ProfileFaithful) except for one case in eight, which gets a fixed answer that also names an unasked, unlisted group. distinct = (kinds, list variants, e-mail class, group answer, login verdict, cookie source), counted when the callback answered. The empty rule set is probed through the configuration loader (separate stream). A fourth case stream (c11-rare) writes raw upstream_configs.yml documents whose rule lists are rare but legal - blank entries (\"\", \" \", several), alone or next to a real entry; entries from a {{template}} variable that resolves to the empty string (quoted, or unquoted in a block list) or to a padded name; padded entries (leading / trailing / both); duplicated entries (same / other case); rule kinds present-but-empty ([] / ~) next to a configured one - one rare kind per upstream, every (rule-kind subset, rare kind, variant) combination in turn, e-mail class (10, incl. an e-mail with an empty domain part) x provider answer (7: member as listed / as listed but trimmed / other / none / case variant / a group literally named blank / error), same four moments and judge; the reference reads configured strings literally: a blank entry names nothing, a list of blank entries is a configured rule kind that admits nobody; matches that exist only after trimming or case folding are counted don't-cares. A fifth case stream (c11-shape) makes the SHAPE of a rule list the input: per upstream one rule kind (addresses / domains / groups; alone or next to plain other kinds) lists 2..40 entries in sorted / reverse / shuffled / sorted-by-lower-case configuration order, mixed-case entries whose case changes their relative byte order (plus entries differing only in case, all-upper and all-lower controls), entries that are prefixes / suffixes of one another, duplicates, a very long entry; probes are the listed entry first / middle / last in configuration order, in byte order as configured and in byte order lower-cased (or random), spelled as listed / lower / upper / case-swapped (groups: alone / after an unlisted group / with other listed groups in reverse order / case-swapped), and users just outside (last character +-1, extended at the end / front, truncated, unrelated); two-sided reference, four moments, same judge; half of the /profile answers there are fixed (verbatim order) instead of faithful")
 	rep.Assume("the fake authenticator answers exactly as scripted (redeem/validate/refresh/profile keyed by per-case tokens)")
 	rep.Assume("virtual time = shifting the deadlines inside the sealed cookie with the proxy's own cipher (DESIGN 2.4)")
 	rep.Assume("for sessions minted by the harness (login refused) group membership on a request with no check due is 'as of the last check': not judged; a session with an empty e-mail cannot be issued (redeem refuses it): not judged where no e-mail rule is configured")
@@ -79,6 +81,36 @@ func TestProp(t *testing.T) {
 	nConfigs := env.Pick(8, 40)
 	perConfig := env.Pick(512, 1024)
 	start := time.Now()
+
+	// Two lanes. The main stream (eight stacks at a time) is latency-bound, not CPU-bound, on this box; the
+	// smaller streams have their own stacks and share nothing with it, so they run next to it, one after the
+	// other (eight stacks at a time as well).
+	var side sync.WaitGroup
+	side.Add(1)
+	go func() {
+		defer side.Done()
+		lane := func(stream string, per int, run func(ci, per, only int)) {
+			o, skip := env.Only(stream)
+			if skip {
+				return
+			}
+			onlyCfg := -1
+			if o >= 0 {
+				onlyCfg = o / per
+			}
+			t0 := time.Now()
+			vh.ForEach(nConfigs, 8, onlyCfg, func(ci int) { run(ci, per, o) })
+			rep.Extra("wall_"+strings.Replace(stream, "-", "_", -1)+"_stream_s", time.Since(t0).Seconds())
+		}
+		// changing facts: the provider's group answer differs between the moments (moved_test.go)
+		lane("c11-moved", env.Pick(64, 160), func(ci, per, o int) { runMovedConfig(rep, env, ci, per, o) })
+		// long allowed_groups lists (long_test.go)
+		lane("c11-long", env.Pick(48, 96), func(ci, per, o int) { runLongConfig(rep, env, ci, per, o) })
+		// rare-but-legal rule configurations: blank / padded / duplicated / templated entries (rare_test.go)
+		lane("c11-rare", env.Pick(96, 160), func(ci, per, o int) { runRareConfig(rep, env, ci, per, o) })
+		// list shape: length, order, case that changes the byte order, prefixes / suffixes (shape_test.go)
+		lane("c11-shape", env.Pick(96, 192), func(ci, per, o int) { runShapeConfig(rep, env, ci, per, o) })
+	}()
 
 	only, skipMain := env.Only("c11")
 	if !skipMain {
@@ -92,43 +124,7 @@ func TestProp(t *testing.T) {
 		vh.ForEach(nConfigs, 8, onlyCfg, func(ci int) { runConfig(rep, env, ci, perConfig, only) })
 		rep.Extra("wall_main_stream_s", time.Since(start).Seconds())
 	}
-	// rare-but-legal rule configurations: blank / padded / duplicated / templated entries (rare_test.go). The
-	// stream has its own stacks and shares nothing with the others; it runs next to the two smaller streams
-	// below (the box is latency-bound, not CPU-bound, with eight stacks at a time)
-	var rareDone sync.WaitGroup
-	perRare := env.Pick(96, 160)
-	if onlyR, skipR := env.Only("c11-rare"); !skipR {
-		onlyCfg := -1
-		if onlyR >= 0 {
-			onlyCfg = onlyR / perRare
-		}
-		rareDone.Add(1)
-		go func() {
-			defer rareDone.Done()
-			startR := time.Now()
-			vh.ForEach(nConfigs, 8, onlyCfg, func(ci int) { runRareConfig(rep, env, ci, perRare, onlyR) })
-			rep.Extra("wall_rare_stream_s", time.Since(startR).Seconds())
-		}()
-	}
-	// changing facts: the provider's group answer differs between the moments (moved_test.go)
-	perMoved := env.Pick(64, 160)
-	if onlyM, skipM := env.Only("c11-moved"); !skipM {
-		onlyCfg := -1
-		if onlyM >= 0 {
-			onlyCfg = onlyM / perMoved
-		}
-		vh.ForEach(nConfigs, 8, onlyCfg, func(ci int) { runMovedConfig(rep, env, ci, perMoved, onlyM) })
-	}
-	// long allowed_groups lists (long_test.go)
-	perLong := env.Pick(48, 96)
-	if onlyL, skipL := env.Only("c11-long"); !skipL {
-		onlyCfg := -1
-		if onlyL >= 0 {
-			onlyCfg = onlyL / perLong
-		}
-		vh.ForEach(nConfigs, 8, onlyCfg, func(ci int) { runLongConfig(rep, env, ci, perLong, onlyL) })
-	}
-	rareDone.Wait()
+	side.Wait()
 	onlyE, skipE := env.Only("c11-empty")
 	if !skipE && only < 0 {
 		nEmpty := env.Pick(10, 40)
@@ -167,6 +163,20 @@ func TestProp(t *testing.T) {
 	floors["rare_reference_deny_with_all_blank_group_list"] = 20
 	floors["rare_reference_deny_with_all_blank_address_list"] = 10
 	floors["rare_reference_deny_with_all_blank_domain_list"] = 10
+	// the list-shape stream: listed users on lists whose order depends on case, per rule kind; users just outside;
+	// every position class
+	for _, kn := range []string{"address", "domain", "group"} {
+		floors["shape_reference_admits_by_"+kn] = 40
+		floors["shape_reference_admits_by_"+kn+"_on_order_changing_list"] = 20
+		floors["shape_outsider_refused_by_"+kn] = 20
+		floors["shape_case_"+kn+"_mixed-case"] = 20
+	}
+	for _, p := range shapePositions {
+		floors["shape_pos_"+p] = 10
+	}
+	floors["shape_moment_login"] = 300
+	floors["shape_reference_compared_login"] = 300
+	floors["shape_later_compared_login_cookie"] = 100
 	floors["rare_moment_login"] = 300
 	floors["rare_reference_compared_login"] = 200
 	floors["rare_later_compared_minted_cookie"] = 100
@@ -323,7 +333,7 @@ func runCase(rep *vh.Report, env vh.Env, ps *sut.ProxyStack, u *upstream, ci, i,
 // stream only) is appended to the signatures that name an input class.
 func judgeCase(rep *vh.Report, ps *sut.ProxyStack, u *upstream, stream, pfx string, ci, i, k int, r *rand.Rand, class, ansClass, email string, memberOf []string, provFailed bool) {
 	count := func(name string, n int) { rep.Count(pfx+name, n) }
-	rareTag := ""
+	rareTag := u.sigTag // " list=<kind>:<case mode>" in the list-shape stream
 	if u.rare != "" {
 		rareTag = " rules=" + u.rare
 	}
@@ -336,6 +346,9 @@ func judgeCase(rep *vh.Report, ps *sut.ProxyStack, u *upstream, stream, pfx stri
 	id := sut.NewID()
 	at, rt, nt := "at-"+id, "rt-"+id, "nt-"+id
 	fixed := fixedAnswers(r)
+	if u.fixedOneIn > 0 {
+		fixed = r.Intn(u.fixedOneIn) == 0
+	}
 	prof := scriptAnswer(email, memberOf, provFailed, fixed)
 	if u.mask&kGrp != 0 {
 		count(map[bool]string{true: "profile_answers_fixed_with_unasked_group", false: "profile_answers_faithful"}[fixed], 1)
@@ -441,7 +454,11 @@ func judgeCase(rep *vh.Report, ps *sut.ProxyStack, u *upstream, stream, pfx stri
 			tag := inputTag
 			if ref.overall == pass {
 				// what matters is which rule admits per the reference and how the e-mail matches it
-				tag = " admitted-by=" + ref.admittedBy() + howAdmitted(ref.admittedBy(), u.rules, email) + rareTag
+				tag = " admitted-by=" + ref.admittedBy() + howAdmitted(ref.admittedBy(), u.rules, email)
+				if strings.Contains(rareTag, "="+ref.admittedBy()+":") {
+					// the configuration class is named where the admitting rule kind is the one configured that way
+					tag += rareTag
+				}
 			}
 			rep.Violate(stream, i, fmt.Sprintf("login-differs: login=%s reference=%s%s", kc.Login.Verdict, ref.verdict(), tag),
 				"the verdict of the real validators at /oauth2/callback differs from the documented meaning of the allow rules", kc)
